@@ -29,7 +29,7 @@ CHECKS.update({
         technique="runtime monitoring: held-set monitor at the client boundary over audit raw locks",
     ),
     "C04": dict(
-        level_text="Exploration by runtime monitoring: owner-table diff across every acquisition against the leaf set computed from the harness's own description of the shape (exactly the leaves, requested mode, once each); failed try leaves nothing held and hands the key back; no blocking raw op inside try_*; closure invocations = 1 iff acquired. Exhaustive over shapes x pre-held patterns for sizes 0..3 (0..4 thorough) for try and blocking APIs, plus concurrent episodes.",
+        level_text="Exploration by runtime monitoring: owner-table diff across every acquisition against the leaf set computed from the harness's own description of the shape (exactly the leaves, requested mode, once each); failed try leaves nothing held and hands the key back; no blocking raw op inside try_*; closure invocations = 1 iff acquired. Exhaustive over shapes x pre-held patterns for sizes 0..3 (0..4 thorough) for try and blocking APIs, a static catalogue of happylock's own tuple/array/boxed-slice/&/&mut impls under the audit locks, plus concurrent episodes.",
         design_ref="DESIGN.md §3 C04",
         level_note="Trusted: audit owner table, the harness's flattening of its own shape description (exec.rs expected_ids).",
         technique="runtime monitoring: owner-table diff vs shape oracle, exhaustive small-shape sweep + scheduled episodes",
@@ -41,7 +41,7 @@ CHECKS.update({
         technique="runtime monitoring: reference-model (KeyModel) lock-step comparison at the client boundary",
     ),
     "C07": dict(
-        level_text="Exploration by runtime monitoring: Boxed/Ref/Retrying::try_new verdicts are compared with a flattened-multiset oracle over harness lock ids for member lists with the duplicate pair at every pair of positions and in every alias form; accepted collections are locked and must hold exactly their leaves. The compile-gated half (new/new_ref accept only owning inputs) is checked by corpus programs under C15's lane.",
+        level_text="Exploration by runtime monitoring: Boxed/Ref/Retrying::try_new verdicts are compared with a flattened-multiset oracle over harness lock ids for member lists with the duplicate pair at every pair of positions and in every alias form; accepted collections are locked and must hold exactly their leaves. The compile-gated half (new/new_ref accept only owning inputs) is checked by 15 corpus routes (each with a compiling twin) and by run-time probes of which types implement OwnedLockable.",
         design_ref="DESIGN.md §3 C07",
         level_note="Trusted: DupOracle (dupfam.rs), Member dispatch. One listed known finding would be zero-sized owned units (see DESIGN.md §5 D8) — outside the dynamic generator.",
         technique="runtime monitoring: reference-model (multiset oracle) comparison over generated member lists",
@@ -59,7 +59,7 @@ CHECKS.update({
         technique="runtime monitoring: wait-while-holding detector on raw-lock events under a seeded scheduler + bounded-progress check",
     ),
     "C10": dict(
-        level_text="Exploration by runtime monitoring: an executable PoisonModel (must / may bits per Poisonable) is stepped alongside random histories of holds, panics, clear_poison and re-acquisitions through every route; is_poisoned() after every step and the Ok/Err of every Poisonable position of every acquisition must agree with it; a panic-free soak checks 'never spuriously poisoned'. One genuine defect is recorded as a known finding (scoped closures of collections do not poison).",
+        level_text="Exploration by runtime monitoring: an executable PoisonModel (must / may bits per Poisonable) is stepped alongside random histories of holds, panics, clear_poison and re-acquisitions through every route; is_poisoned() after every step and the Ok/Err of every Poisonable position of every acquisition must agree with it; a panic-free soak checks 'never spuriously poisoned'; the same model runs inside the concurrent panic episodes with a scheduling point right after every release (so a flag stored after the unlock can be overtaken). One genuine defect is recorded as a known finding (scoped closures of collections do not poison).",
         design_ref="DESIGN.md §3 C10, §5 D7",
         level_note="Trusted: PoisonModel transitions (exec.rs section(), poisonfam.rs). Three-valued where the statement is silent (panics under shared holds).",
         technique="runtime monitoring: reference-model (PoisonModel) comparison over generated panic histories",
@@ -83,7 +83,7 @@ CHECKS.update({
         technique="runtime monitoring: exhaustive enumeration against a reference oracle over audit raw locks",
     ),
     "C14": dict(
-        level_text="Other (compile-gated execution): one minimal offending program per escape route (34 routes), each with a compiling and running twin; rustc against the rlib built from the current tree decides; accepted offending programs are executed and must show their own harm. Plus the C06 KeyModel histories as run-time evidence on the accepted surface. Two routes are open on the current tree and recorded as known finding D2; defect D10 (second key after a refused get) was found by the KeyModel and repaired.",
+        level_text="Other (compile-gated execution): one minimal offending program per escape route (43 routes), each with a compiling and running twin; rustc against the rlib built from the current tree decides; accepted offending programs are executed and must show their own harm. Plus run-time probes of which types implement Keyable, and the C06 KeyModel histories as run-time evidence on the accepted surface. Two routes are open on the current tree and recorded as known finding D2; defect D10 (second key after a refused get) was found by the KeyModel and repaired.",
         design_ref="DESIGN.md §3 C14, §2.8",
         level_note="The 'for all programs' quantifier is sampled by a finite corpus of escape shapes; rejection is rustc's observation. Every *violation* this lane reports is backed by an executed witness.",
         technique="compile-gated corpus with executed witnesses + runtime KeyModel monitor",
